@@ -85,14 +85,15 @@ BoxS == {-1, 0, 1}
 BoxB == {-1, 0, 2}
 
 BSet(m) == IF Level >= 2 THEN [1..m -> BoxB]
-           ELSE { [i \in 1..m |-> IF i = 1 THEN -1 ELSE 2], [i \in 1..m |-> IF i = 1 THEN 2 ELSE 0], [i \in 1..m |-> 0] }
+           ELSE { [i \in 1..m |-> IF i = 1 THEN -1 ELSE 2], [i \in 1..m |-> IF i = 1 THEN 2 ELSE 0] }
 CgSmall ==
     UNION { UNION { CgProblems("cgls", m, n, {A \in IMats(m, n, Ent) : FullRank(A, m, n)},
                                BSet(m), [1..n -> BoxS], {0, 1}, {<<>>})
                     : n \in 1..MaxDim } : m \in 1..MaxDim }
 PcgSmall ==
     UNION { CgProblems("pcgls", m, 2, {A \in IMats(m, 2, Ent) : FullRank(A, m, 2)},
-                       {[i \in 1..m |-> IF i = 1 THEN 2 ELSE -1], [i \in 1..m |-> i - 1]},
+                       IF Level >= 2 THEN {[i \in 1..m |-> IF i = 1 THEN 2 ELSE -1], [i \in 1..m |-> i - 1]}
+                                     ELSE {[i \in 1..m |-> IF i = 1 THEN 2 ELSE -1]},
                        {<<0, 0>>, <<1, -1>>, <<-1, 0>>}, {0, 1}, Precs(2))
             : m \in 1..MaxDim }
 
@@ -215,6 +216,8 @@ EmitCg ==
 (***************************************************************************)
 HalfInts(lo, hi) == { Q(i, 2) : i \in (2 * lo)..(2 * hi) }
 Lat2(lo, hi) == { <<a, b>> : a \in HalfInts(lo, hi), b \in HalfInts(lo, hi) }
+
+ILat2(lo, hi) == { <<R(a), R(b)>> : a \in lo..hi, b \in lo..hi }
 
 RSign(a) == IF a[1] > 0 THEN One ELSE IF a[1] < 0 THEN QNeg(One) ELSE Zero
 Soft(a, th) == QMul(RSign(a), RMax(QSub(RAbs(a), th), Zero))      \* sign(a) max(|a| - th, 0)
@@ -352,9 +355,9 @@ KktFixedPoint ==
 KktMinimiser ==
     (Run("kkt") /\ pb.n = 2) =>
         LET A == MR(pb.A)  b == KktB(pb)  f0 == Objective(A, b, pb.reg, pb.xs)
-        IN \A z \in Lat2(-2, 2) : InDom(pb.reg, z) =>
-              /\ RLe(f0, Objective(A, b, pb.reg, z))
-              /\ (z # pb.xs => f0 # Objective(A, b, pb.reg, z))                  \* unique
+        IN \A d \in Lat2(-1, 1) :                                                \* convex: local = global
+              LET z == QVAdd(pb.xs, d) IN
+              (d # <<Zero, Zero>> /\ InDom(pb.reg, z)) => RLt(f0, Objective(A, b, pb.reg, z))   \* strict: unique
 
 EmitKkt ==
     (Emit /\ Run("kkt")) =>
@@ -456,8 +459,8 @@ WrapRelation ==
     Run("wrap") =>
         LET cs == VR(pb.c) IN
         /\ SciPyGrad(pb, cs) = <<Zero, Zero>>
-        /\ \A z \in Lat2(-3, 3) : RLe(SciPyF(pb, cs), SciPyF(pb, z))
-        /\ (pb.wrapper = "maximize" => \A z \in Lat2(-3, 3) : RLe(UserF(pb, z), UserF(pb, cs)))
+        /\ \A z \in ILat2(-3, 3) : RLe(SciPyF(pb, cs), SciPyF(pb, z))
+        /\ (pb.wrapper = "maximize" => \A z \in ILat2(-3, 3) : RLe(UserF(pb, z), UserF(pb, cs)))
 
 EmitWrap ==
     (Emit /\ Run("wrap")) =>
